@@ -115,20 +115,74 @@ def run(tier):
                 json.dumps({k: first[p][0][k] for k in ("status", "value", "type", "msg")})[:700], json.dumps({k: o[k] for k in ("status", "value", "type", "msg")})[:700], src), {"src": src, "first": first[p][0], "later": o})
     if rejected and nondet == 0:
         V.violation("trace-rejected", "Trace_Session rejected the recorded session but no differing observation was found: %s" % tv.out[-500:], {})
+    # ---- scheduling dimension (Imports.tla): the completion order of a module's import tasks must not show
+    im = vlib.run_tlc("Imports", "MC_Imports", workers=2, timeout=600, print_prefix='"SCHED"')
+    ia = vlib.run_tlc("Imports", "MC_Imports_Arrival", workers=2, timeout=600)
+    if im.violation:
+        V.violation("model:Imports:%s" % im.violation, "Imports.tla violates %s" % im.violation, {"trace": im.trace})
+    scheds = sorted((x for x in (vlib.tlc_value_to_json(l) for l in im.prints) if x), key=json.dumps)
+    BROKEN = ['1 #Int+ "m%d is broken"\n', '2.0 #Float+ "m%d is broken"\n', 'let x = y%d\nx\n']
+    shapes = {"flat": lambda k, bad: (BROKEN[(k - 1) % 3] % k) if bad else "%d\n" % k,
+              # a broken module that is slow to finish because it imports another one first
+              "nested": lambda k, bad: ("let q = import! leaf%d\n" % k) + ((BROKEN[(k - 1) % 3] % k) if bad else "q\n")}
+    sjobs, smeta = [], {}
+    for shape, mk in shapes.items():
+        for sc in scheds:
+            n = sc["n"]
+            mods = [["m%d" % k, mk(k, k in sc["broken"])] for k in range(1, n + 1)] + [["leaf%d" % k, "%d\n" % (k * 10)] for k in range(1, n + 1)]
+            main = "".join("let v%d = import! m%d\n" % (k, k) for k in range(1, n + 1)) + "{ " + ", ".join("v%d" % k for k in range(1, n + 1)) + " }\n"
+            j = {"id": len(sjobs), "modules": mods, "main": main, "order": sc["order"]}
+            smeta[j["id"]] = (shape, tuple(sc["broken"]), sc["order"])
+            sjobs.append(j)
+    sres = vlib.run_pool(["sched"], sjobs, workers=8, job_timeout=60)
+    groups = {}
+    for j in sjobs:
+        r = sres.get(j["id"])
+        shape, broken, order = smeta[j["id"]]
+        if r is None:
+            continue
+        nev += 1
+        rep = {"sched_job": j}
+        if r.get("status") != "ok":
+            V.violation("schedule:%s" % r.get("status"), "compiling a module with %d imports under completion order %s: %s %s" % (len(order), order, r.get("status"), r.get("text", r.get("msg", ""))[:300]), rep)
+            continue
+        pos = [r["text"].find("m%d is broken" % k) if (k - 1) % 3 != 2 else r["text"].find("y%d" % k) for k in broken]
+        if any(p < 0 for p in pos) or pos != sorted(pos):
+            V.violation("schedule:errors-out-of-source-order", "broken imports %s, completion order %s: the diagnostics do not list the errors in source order\n%s" % (list(broken), order, r["text"][:600]), rep)
+        groups.setdefault((shape, broken), []).append((order, r["text"], j))
+    for (shape, broken), rs in groups.items():
+        texts = {t for _, t, _ in rs}
+        if len(texts) > 1:
+            a = rs[0]
+            b = next(x for x in rs if x[1] != a[1])
+            V.violation("schedule:nondeterministic", "the same sources (%s, broken imports %s) give different diagnostics when the import tasks finish in order %s and in order %s" % (shape, list(broken), a[0], b[0]),
+                        {"sched_job": b[2], "sched_other": a[2]})
     rc = V.finish()
     vlib.write_evidence(PID, tier, "model_checking", {
         "states": mc.distinct, "transitions": mc.generated, "traces_validated_against_impl": len(jobs),
         "samples": [[(s["vm"], s["prog"]) for s in j["history"]] for j in jobs[:2]],
         "evaluations": nev, "distinct_nontrivial": len(sources), "trace_events": nev, "trace_accepted_by_tlc": not rejected,
         "rule": "histories generated by TLC from Session.tla (12 evaluations over 3 VMs) over batches of 40 sources (well-typed Lang.tla programs, ill-typed Retype mutants, unannotated-error variants, std-using and erroneous hand-written sources), each source also observed twice in fresh VMs of separate processes; every evaluation is one trace event; distinct_nontrivial = number of distinct sources",
+        "schedules_replayed": len(sjobs), "imports_model_states": im.distinct, "imports_arrival_mutant_rejected_by": ia.violation,
         "exhaustive": False, "known_findings_hit": {k: v[1] for k, v in V.known_hits.items()},
-    }, ["observation = status, canonical value rendering, type text, full error text (addresses are not masked), effect log, compared through a 30-bit hash in the trace and in full in the explanation"],
+    }, ["the scheduling dimension uses a VM without the std library whose spawner is a deterministic executor polling the import tasks in the priority order TLC chose (Imports.tla, all completion orders of 3 imports x all subsets of broken ones x 2 module shapes)",
+        "observation = status, canonical value rendering, type text, full error text (addresses are not masked), effect log, compared through a 30-bit hash in the trace and in full in the explanation"],
         time.time() - t0, len(V.violations))
     return rc
 
 
 def replay(path):
     d = json.load(open(path))["replay"]
+    if "sched_job" in d:
+        js = [d["sched_job"]] + ([d["sched_other"]] if "sched_other" in d else [])
+        for k, j in enumerate(js):
+            j["id"] = k
+        rs = vlib.run_pool(["sched"], js, workers=1, job_timeout=60)
+        for k in sorted(rs):
+            print(js[k]["order"], rs[k].get("status"), rs[k].get("text", "")[:1500])
+        if any(r.get("status") != "ok" for r in rs.values()) or len({r.get("text") for r in rs.values()}) > 1:
+            print("VIOLATION property=%s replay=%s" % (PID, path)); return 1
+        return 0
     if "src" not in d:
         print("VIOLATION property=%s replay=%s" % (PID, path)); return 1
     hist = [{"vm": 1, "prog": 1, "src": d["src"]}]
